@@ -50,6 +50,11 @@ def run(ctx):
   C13.axis_names(ctx)
   # ... and every parameter gets back its own slice of the flat result list
   C13.redistribution(ctx)
+  # whether a statistic is compressed depends on ITS dimension (not on the size everything is padded to), and in
+  # sharded mode every parameter reads its own window of the global arrays (index_start counts preconditioned statistics only)
+  from . import C10, C07
+  C10.rank_flow(ctx)
+  C07.sharded_triple(ctx)
 
 
 def _letters_summary(ev, bound, rec):
